@@ -164,7 +164,7 @@ func TestCheck(t *testing.T) {
 		r.Current(wk, w)
 		uciCase(r, &root, w)
 	})
-	r.Finish("traces_checked", "pv_lines", "pv_moves", "abort_lines", "empty_pv_lines", "ponder_moves", "game_searches_on_warm_tables", "uci_traces_checked", "uci_ponder_moves")
+	r.Finish("searches_on_poisoned_table", "engines_warmed_up_on_another_root", "abort_sweep_sparse_deep_points", "traces_checked", "pv_lines", "pv_moves", "abort_lines", "empty_pv_lines", "ponder_moves", "game_searches_on_warm_tables", "uci_traces_checked", "uci_ponder_moves")
 }
 
 func uciCase(r *ev.Run, root *strace.Root, w uciWitness) {
